@@ -32,3 +32,36 @@ REG.add(Contract(FILE, 'LAMMPS_PairTabulation.__init__',
     ensures=lambda v, old, res: [v.field('self', '_potentials') == v.potentials, v.field('self', '_cutoff') == v.cutoff,
                                  v.field('self', '_nr') == v.nr],
     post_names=['potentials', 'cutoff', 'nr'], carries=['post'], props=['C01']))
+
+# ---------------------------------------------------------------- DL_POLY class and the public dispatcher
+from . import dlpoly_table as DT
+_D = tab('DLPoly_PairTabulation')
+REG.add(Contract(FILE, 'DLPoly_PairTabulation.write',
+    params=[('self', T.Obj('DLPoly_PairTabulation')), ('fp', T.Doc)],
+    requires=lambda v: [_D['nr'](v.self) >= 0, _D['nr'](v.self) != 4],
+    modifies=['fp'],
+    ensures=lambda v, old, res: [z3.Or(_D['nr'](v.self) % 4 == 0, z3.Length(_D['pots'](v.self)) == 0),
+                                 v.fp == cat(old.fp, DT.dlpoly_file(_D['pots'](v.self), _D['cutoff'](v.self), _D['nr'](v.self)))],
+    post_names=['only-multiples-of-4-return', 'file'],
+    on_raise=lambda v, old: [v.fp == old.fp], carries=['post'], props=['C02', 'C17']))
+
+for _cls in ('DLPoly_PairTabulation', 'GULP_PairTabulation'):
+    REG.add(Contract(FILE, _cls + '.__init__',
+        params=[('self', T.New(_cls)), ('potentials', T.List(T.Obj('Potential'))), ('cutoff', T.Real), ('nr', T.Int)],
+        ensures=lambda v, old, res: [v.field('self', '_potentials') == v.potentials, v.field('self', '_cutoff') == v.cutoff,
+                                     v.field('self', '_nr') == v.nr],
+        post_names=['potentials', 'cutoff', 'nr'], carries=['post'], props=['C02', 'C19']))
+
+def _dispatch_post(v, old, res):
+    from . import gulp as GU
+    t = v.outputType
+    return [z3.Implies(t == z3.StringVal('LAMMPS'), v.out == cat(old.out, lammps_tab_file(v.potentialList, v.cutoff, v.gridPoints))),
+            z3.Implies(t == z3.StringVal('DL_POLY'), v.out == cat(old.out, DT.dlpoly_file(v.potentialList, v.cutoff, v.gridPoints))),
+            z3.Implies(t == z3.StringVal('GULP'), v.out == cat(old.out, GU.gulp_file(v.potentialList, v.cutoff, v.gridPoints)))]
+
+REG.add(Contract(F_INIT, 'writePotentials',
+    params=[('outputType', T.Str), ('potentialList', T.List(T.Obj('Potential'))), ('cutoff', T.Real), ('gridPoints', T.Int), ('out', T.Doc)],
+    requires=lambda v: [v.gridPoints >= 3, v.gridPoints != 4, v.cutoff > 0],
+    modifies=['out'], ensures=_dispatch_post, post_names=['LAMMPS', 'DL_POLY', 'GULP'],
+    on_raise=lambda v, old: [v.out == old.out],
+    carries=['post'], props=['C01', 'C02', 'C19', 'C17']))
